@@ -81,7 +81,7 @@ Definition c_un_delete (m : menv) : bool := 0 <? m_n m "len(Build)".
 (* Configuration.execHook: the hook is registered for the event *)
 Definition c_hook_event (m : menv) : bool := event_eqb (m_e m "arg2") (m_e m "each(each(arg1.hooks).events)").
 (* no delete policy -> before-hook-creation *)
-Definition c_hook_default (m : menv) : bool := m_n m "len(each(hookByWeight(executingHooks)).deletePolicies)" =? 0.
+Definition c_hook_default (m : menv) : bool := m_n m "len(each(hookByWeight(new([]Hook))).deletePolicies)" =? 0.
 (* hookByWeight.Less *)
 Definition c_hook_less (m : menv) : bool :=
   if m_n m "recv[arg1].weight" =? m_n m "recv[arg2].weight"
@@ -108,7 +108,7 @@ Definition c_keep_none (m : menv) : bool :=
 Definition c_keep_absent (m : menv) : bool :=
   negb (m_b m "has(each(arg1).head.metadata.annotations[helm.sh/resource-policy])").
 Definition c_keep_value (m : menv) : bool :=
-  vstr_eqb (m_str m "ToLower(TrimSpace(each(arg1).head.metadata.annotations[helm.sh/resource-policy]))") "keep".
+  vstr_eqb (to_lower (trim_space (m_str m "each(arg1).head.metadata.annotations[helm.sh/resource-policy]"))) "keep".
 
 (* ---- pkg/action/validate.go: requireValue (the three tests of checkOwnership) ---- *)
 
@@ -123,11 +123,11 @@ Definition c_create_limit (m : menv) : bool := 0 <? m_n m "MaxHistory".
 Definition c_deployed_none (m : menv) : bool := m_n m "len(DeployedAll)" =? 0.
 (* Storage.removeLeastRecent *)
 Definition c_rlr_fits (m : menv) : bool := m_n m "len(History)" <=? m_n m "arg2".
-Definition c_rlr_enough (m : menv) : bool := m_n m "len(sorted(History))" - m_n m "len(toDelete)" =? m_n m "arg2".
+Definition c_rlr_enough (m : menv) : bool := m_n m "len(sorted(History))" - m_n m "len(new([]Release))" =? m_n m "arg2".
 Definition c_rlr_has_deployed (m : menv) : bool := negb (m_nil m "Deployed").
 Definition c_rlr_other (m : menv) : bool := negb (m_n m "each(sorted(History)).version" =? m_n m "Deployed.version").
-Definition c_rlr_no_error (m : menv) : bool := m_n m "len(errs)" =? 0.
-Definition c_rlr_one_error (m : menv) : bool := m_n m "len(errs)" =? 1.
+Definition c_rlr_no_error (m : menv) : bool := m_n m "len(new([]error))" =? 0.
+Definition c_rlr_one_error (m : menv) : bool := m_n m "len(new([]error))" =? 1.
 (* Storage.Last: no revision at all *)
 Definition c_last_none (m : menv) : bool := m_n m "len(History)" =? 0.
 
@@ -251,7 +251,7 @@ Definition model : list fmodel :=
     mkFn "Install.availableName"
       (no_err "release names are valid in the model" ["ValidateReleaseName"])
       [ ("ret ok", IB p_avail_ok);
-        ("ret new:cannot reuse a name that is still in use", IB p_avail_in_use);
+        ("ret new", IB p_avail_in_use);
         ("call Releases.History", IB p_avail_reads) ];
     mkFn "Install.replaceRelease" []
       [ ("ret ok", IB p_repl_keep);
@@ -260,7 +260,7 @@ Definition model : list fmodel :=
     mkFn "Upgrade.prepareUpgrade"
       [ (ANil "arg2" false, "the chart argument is abstracted: the model receives the rendered manifest");
         (AFlag "HideSecret" false, "--hide-secret is not in the model");
-        (ANoErr "Last", "Releases.Last fails exactly when there is no revision: Storage.Last, item 'ret new:no revision…'; the model's upgrade answers ENoDeployed there") ]
+        (ANoErr "Last", "Releases.Last fails exactly when there is no revision: Storage.Last, item 'ret new'; the model's upgrade answers ENoDeployed there") ]
       [ ("ret errPending", IB p_up_pending);
         ("call Releases.Deployed", IB p_up_ask_deployed);
         ("ret err(Deployed)", IB p_up_no_deployed) ];
@@ -268,7 +268,7 @@ Definition model : list fmodel :=
       (no_err "History.Run only validates the name and reads the history" ["NewHistory.Run"])
       [ ("call KubeClient.Delete", IB p_fail_cleanup);
         ("pred filtered(NewHistory.Run)", IB c_fail_good);
-        ("ret err(arg3):unable to find a previously successful release when attempting to rollback. original upgrade error", IB p_fail_no_target);
+        ("ret err(arg3)", IB p_fail_no_target);
         ("call NewRollback.Run", IB p_fail_rollback) ];
     mkFn "Rollback.prepareRollback"
       (no_err "release names are valid in the model; the second history read answers like the first" ["ValidateReleaseName"; "History"] ++
@@ -276,21 +276,21 @@ Definition model : list fmodel :=
       [ ("ret err(Last)", IB p_rb_no_release);
         ("pred any(History)", IB c_rb_same);
         ("val previousVersion", IN v_rb_prev);
-        ("ret new:release has no %d version", IB p_rb_missing);
+        ("ret new", IB p_rb_missing);
         ("call Releases.Get", IB p_rb_get) ];
     mkFn "Uninstall.Run"
       (no_err "the cluster is reachable, a waiter exists, names are valid; a failing history read is the empty history of the model"
               ["IsReachable"; "GetWaiter"; "ValidateReleaseName"; "History"])
       [ ("ret errMissingRelease", IB p_un_none);
-        ("ret new:the release named %q is already deleted", IB p_un_already_kept);
+        ("ret new", IB p_un_already_kept);
         ("set sorted(History)[last].status = uninstalling", IB p_un_proceed) ];
     mkFn "Uninstall.deleteRelease"
       (no_err "manifests of the model parse and build" ["SortManifests"; "Build"])
       [ ("call KubeClient.Delete", IB p_un_delete_plain);
         ("call kubeClient.DeleteWithPropagationPolicy", IB p_un_delete_prop) ];
     mkFn "Configuration.execHook" []
-      [ ("append executingHooks each(arg1.hooks)", IB c_hook_event);
-        ("set each(hookByWeight(executingHooks)).deletePolicies", IB c_hook_default) ];
+      [ ("append new([]Hook) each(arg1.hooks)", IB c_hook_event);
+        ("set each(hookByWeight(new([]Hook))).deletePolicies", IB c_hook_default) ];
     mkFn "hookByWeight.Less" []
       [ ("ret true", IB c_hook_less) ];
     mkFn "Configuration.deleteHookByPolicy"
@@ -308,7 +308,7 @@ Definition model : list fmodel :=
       [ ("append keep each(arg1)", IB p_keep);
         ("append remaining each(arg1)", IB p_remaining) ];
     mkFn "requireValue" []
-      [ ("ret new:missing key %q: must be set to %q", IB c_req_missing);
+      [ ("ret new", IB c_req_missing);
         ("ret ok", IB p_req_ok) ];
     mkFn "Storage.Create" []
       [ ("call removeLeastRecent", IB c_create_limit) ];
@@ -321,13 +321,13 @@ Definition model : list fmodel :=
        [ (ANonNeg "arg2", "Create passes MaxHistory-1 under MaxHistory > 0; the model's limit is a natural number") ])
       [ ("call Deployed", IB p_rlr_prune);
         ("break", IB p_rlr_stop);
-        ("append toDelete each(sorted(History))", IB p_rlr_pick);
+        ("append new([]Release) each(sorted(History))", IB p_rlr_pick);
         ("ret ok", IB p_rlr_ok);
-        ("ret val(errs[0])", IB p_rlr_one_error);
-        ("ret new:encountered %d deletion errors. First is: %s", IB p_rlr_many_errors) ];
+        ("ret val(new([]error)[0])", IB p_rlr_one_error);
+        ("ret new", IB p_rlr_many_errors) ];
     mkFn "Storage.Last"
       (no_err "a failing history read is the empty history of the model" ["History"])
-      [ ("ret new:no revision for release %q", IB c_last_none) ];
+      [ ("ret new", IB c_last_none) ];
     mkFn "Status.IsPending" []
       [ ("ret true", IB c_is_pending) ];
     mkFn "ByRevision.Less" []
@@ -364,7 +364,7 @@ Definition hooks_for_d (ev : event) (hs : list hook) : list hook :=
      (filter (fun e => c_hook_event (set_e "arg2" ev (set_e "each(each(arg1.hooks).events)" e env0))) (h_events h))) hs.
 
 Definition effective_policies_d (h : hook) : list policy :=
-  if c_hook_default (set_n "len(each(hookByWeight(executingHooks)).deletePolicies)" (zlen (h_policies h)) env0)
+  if c_hook_default (set_n "len(each(hookByWeight(new([]Hook))).deletePolicies)" (zlen (h_policies h)) env0)
   then [BeforeHookCreation] else h_policies h.
 
 Definition has_policy_d (h : hook) (p : policy) : bool :=
@@ -378,8 +378,8 @@ Definition manifest_keep_d (r : res) : bool :=
   let m := set_n "len(each(arg1).head.metadata.annotations)" (match a with Some _ => 1 | None => 0 end)
            (set_b "has(each(arg1).head.metadata.annotations[helm.sh/resource-policy])"
                  (match a with Some _ => true | None => false end)
-           (set_str "ToLower(TrimSpace(each(arg1).head.metadata.annotations[helm.sh/resource-policy]))"
-                 (match a with Some v => to_lower (trim_space v) | None => "" end) env0)) in
+           (set_str "each(arg1).head.metadata.annotations[helm.sh/resource-policy]"
+                 (match a with Some v => v | None => "" end) env0)) in
   if c_keep_none m then false else if c_keep_absent m then false else c_keep_value m.
 
 (* validate.go: requireValue(meta, k, v) = nil *)
@@ -394,7 +394,7 @@ Fixpoint prune_pick_d (h : list release) (deployed : option nat) (total maxkeep 
   match h with
   | [] => []
   | r :: t =>
-      if c_rlr_enough (set_n "len(sorted(History))" (znat total) (set_n "len(toDelete)" (znat picked)
+      if c_rlr_enough (set_n "len(sorted(History))" (znat total) (set_n "len(new([]Release))" (znat picked)
                       (set_n "arg2" (znat maxkeep) env0)))
       then []
       else if c_rlr_has_deployed (set_nil "Deployed" (match deployed with Some _ => false | None => true end) env0)
@@ -419,7 +419,7 @@ Definition remove_least_recent_d (maxkeep : nat) : prog serr :=
                    else match max_rev_of ds with Some d => Some (rev d) | None => None end in
         let picks := prune_pick_d (sort_by_rev h) dep (List.length h) maxkeep 0 in
         r <- delete_all picks ;;
-        let m := set_n "len(errs)" (znat (fst r)) env0 in
+        let m := set_n "len(new([]error))" (znat (fst r)) env0 in
         if c_rlr_no_error m then Ret SOk
         else if c_rlr_one_error m then Ret (snd r)
         else Ret SFail
